@@ -303,7 +303,10 @@ def update(config: dict[str, Any], tag: str = "") -> None:
                 clean_graph, flag_type="clean", flag=lambda self, slot: False
             )
             flag_state = "" if to_state == "install" else to_state
-            for vm_object in vm_objects:
+            # workers with own restrictions only have some of the vm variants
+            worker_vm_ids = {o.id for o in clean_graph.objects}
+            worker_vm_objects = [o for o in vm_objects if o.id in worker_vm_ids]
+            for vm_object in worker_vm_objects:
                 try:
                     clean_graph.flag_children(
                         flag_state,
@@ -371,7 +374,7 @@ def update(config: dict[str, Any], tag: str = "") -> None:
                 clean_graph.flag_intersection(
                     skip_graph, flag_type="run", flag=lambda self, slot: False
                 )
-                for vm_object in vm_objects:
+                for vm_object in worker_vm_objects:
                     try:
                         clean_graph.flag_children(
                             from_state,
